@@ -466,3 +466,10 @@ _extra("C20", [worker("plain", ["explore", "C20", "--cases", "2600"], build="pla
 for _p in ("C01", "C02", "C16"):
     _extra(_p, [worker("selftest", ["selftest", _p], shards=1, watchdog=(300, 300))],
            ["monitor self-test leg: 36 single-clause corruptions of a valid index / answer / dump must each be rejected"])
+
+
+# C18: every Writer of every case gets a configured temp dir while the process default (TMPDIR) is unusable:
+# a build that does not honour Writer::set_tmpdir (e.g. through the writer handed back by
+# prepare_changing_distance) fails with an io error instead of silently using another directory
+PLANS["C18"]["legs"][0]["env"] = {"TMPDIR": "/nonexistent-arroy-verif-tmpdir", "VERIF_FORCE_TMPDIR": "1"}
+PLANS["C18"]["assumptions"].insert(0, "native leg runs with TMPDIR pointing to a directory that does not exist and a configured temp dir on every Writer, so that a lost set_tmpdir becomes an io error")
